@@ -332,6 +332,11 @@ def check_foreign(case) -> list[Fail]:
     if r is None:
         raise InvalidCase("program does not build")
     base = json.loads(r.hugr.to_json())
+    # a foreign writer addresses ports by the specification, independently of hugr-py's writer:
+    # rebuild the edge list from the links and the reference port addressing
+    from vlib.props.c03 import expected_edges
+
+    base["edges"] = [[[s_, so], [t_, to]] for (s_, so, t_, to), c in sorted(expected_edges(r.hugr).items()) for _ in range(c)]
     doc = base
     applied = 0
     for i in case["rewrites"]:
@@ -384,13 +389,23 @@ def foreign_strategy(tier):
     from vlib import proggen
 
     return st.fixed_dictionaries(
-        {"prog": proggen.programs(size=10 if tier == "quick" else 20, max_depth=2), "rewrites": st.lists(st.integers(0, 6), min_size=1, max_size=4, unique=True), "k": st.integers(0, 5)}
+        {"prog": st.one_of(proggen.programs(size=10 if tier == "quick" else 20, max_depth=2), proggen.programs(size=14, max_depth=1, roots=("module",), detached=False, call_bias=True)), "rewrites": st.one_of(st.lists(st.integers(0, 6), min_size=1, max_size=4, unique=True), st.lists(st.integers(1, 6), max_size=3, unique=True).map(lambda r: [0] + r)), "k": st.integers(0, 5)}
+    )
+
+
+def foreign_calls_strategy(tier):
+    from vlib import proggen
+
+    return st.fixed_dictionaries(
+        {"prog": proggen.programs(size=16, max_depth=1, roots=("module",), detached=False, call_bias=True), "rewrites": st.lists(st.integers(1, 6), max_size=2, unique=True).map(lambda r: [0] + r), "k": st.integers(0, 5)}
     )
 
 
 SUBS = [
+    Sub("foreign-calls", check_foreign, strategy=foreign_calls_strategy, nontrivial=lambda c: "explicit-order-edge" in c["prog"].get("classes", []), classes=lambda c: [x for x in c["prog"].get("classes", []) if x in ("explicit-order-edge", "load-function", "call")],
+        n_quick=120, n_thorough=1500, sample_ok=lambda c: len(json.dumps(c)) < 3000),
     Sub("foreign", check_foreign, strategy=foreign_strategy, nontrivial=lambda c: True, classes=lambda c: ["rewrite:" + ["null-order", "general-unit", "drop-defaults", "metadata-holes", "encoder+key-order", "extra-attributes", "hierarchy-order"][i % 7] for i in c["rewrites"]],
-        n_quick=250, n_thorough=1500, sample_ok=lambda c: len(json.dumps(c)) < 3000),
+        n_quick=250, n_thorough=2000, sample_ok=lambda c: len(json.dumps(c)) < 3000),
     Sub("types", check_type, strategy=lambda tier: asts.types(3 if tier == "quick" else 4).map(lambda t: {"t": t}), nontrivial=nt_depth("t"),
         classes=lambda c: [c["t"]["k"]], n_quick=1200, n_thorough=8000),
     Sub("params_args", check_param_arg,
